@@ -132,7 +132,22 @@ fn check_hooks(code_lens: &BTreeMap<usize, Vec<bool>>, o: &mut Outcome, what: &s
     !r.watchdog
 }
 
-pub fn batch(index: u64, mut rng: Rng, tier: Tier) -> Outcome {
+pub fn batch(index: u64, rng: Rng, tier: Tier) -> Outcome {
+    batch_n(index, rng, tier.pick(220, 500))
+}
+
+/// `vh evm-mini <seed> <n>`: the same monitors over a short batch, as the workload of the Miri /
+/// valgrind / ASan passes (exit 1 on any monitor violation; the sanitizer reports by itself)
+pub fn mini(seed: u64, n: u64) -> i32 {
+    let o = batch_n(seed, Rng::derive(seed, "evm-mini", 0), n);
+    println!("evm-mini seed={seed} n={n} counters={:?}", o.counters);
+    for v in &o.violations {
+        println!("MONITOR-VIOLATION {} {}", v.signature, v.detail);
+    }
+    if o.violations.is_empty() { 0 } else { 1 }
+}
+
+pub fn batch_n(index: u64, mut rng: Rng, n: u64) -> Outcome {
     let mut o = Outcome::default();
     let v = genesis(Policy::default());
     let accts = make_accounts(&v, 2, 18_000 + index, &fil(1000));
@@ -155,7 +170,6 @@ pub fn batch(index: u64, mut rng: Rng, tier: Tier) -> Outcome {
     dests.insert(static_wrapper_runtime().len(), refevm::jumpdests(&static_wrapper_runtime()));
     let fixture_lens: Vec<usize> = dests.keys().cloned().collect();
     hook::take();
-    let n = tier.pick(220, 500);
     let mut ran = 0u64;
     for pi in 0..n {
         match rng.weighted(&[30, 20, 15, 10, 25]) {
